@@ -355,6 +355,11 @@ def gen_data(rng, d, constr_ok=True, map_ok=True):
     if k == "bytes":
         return ("bytes", gen_bytes(rng))
     n = rng.choice([0, 0, 1, 1, 2, 2, 3, 4])
+    if rng.random() < 0.02:
+        # 24 / 25 / 30 / 256 children: the length no longer fits the initial byte of a definite-length head
+        n = rng.choice([23, 24, 24, 25, 30, 256])
+        kids = [("int", gen_int(rng, huge_ok=False)) if rng.random() < 0.7 else ("bytes", gen_bytes(rng, 8)) for _ in range(n)]
+        return ("list", kids) if k != "constr" else ("constr", gen_cid(rng), kids)
     if k == "list":
         return ("list", [gen_data(rng, d - 1, constr_ok, map_ok) for _ in range(n)])
     if k == "constr":
